@@ -17,6 +17,7 @@ LEVEL = "other"
 def run(chk):
     cfgs = ["base", "z"]
     chk.configs = cfgs
+    chk.rule("FLOAT.double-only", "no float-typed expression and no single-precision math function in any library function")
     chk.rule("T.symmetry", "T(Positive, wc, wc2) == T(Negative, -wc, -wc2); NonZero invariant under negation; T independent of own path "
              "type for Intersection / Union / Xor")
     chk.rule("AXIS.mirror", "twin locals for the two axes read mirrored coordinates (transposing the input transposes the result)")
@@ -33,6 +34,7 @@ def run(chk):
         e9.rule_int64_product(db, chk, cfg)
         e3.point_equality_table(db, chk, cfg)
         e3.axis_mirror_rule(db, chk, cfg)
+        e3.no_single_precision(db, chk, cfg)
         e3.closing_vertex_rule(db, chk, cfg)
     chk.floor("T.symmetry", 1700 * len(cfgs))
     chk.floor("T.comparator", 1600 * len(cfgs))
